@@ -67,9 +67,19 @@ def check_visitor_core(model: Model, col, rule: str):
     col.check(not bad_ret, rule, f"{VISITOR}::Visitor.v_Generic returns the handler's result", "return <result of the handler call>",
               f"`{bad_ret[0] if bad_ret else ''}` does not return what the (default) handler returned: a node without a handler is reported as its own replacement / value "
               "(an absent for-condition becomes a branch predicate)", VISITOR, vg)
+    # OnEnter / OnLeave bracket every visit on every exit (lowering keeps its assignment-context stack in these hooks)
+    unbalanced = []
+    for evs, status in paths(vg.body, fold=_const_fold):
+        if status == "raise":
+            continue
+        seq = [last_attr(c) for c in calls_on_path(evs) if last_attr(c) in ("OnEnter", "OnLeave")]
+        if seq != ["OnEnter", "OnLeave"]:
+            unbalanced.append(seq)
+    col.check(not unbalanced, rule, f"{VISITOR}::Visitor.v_Generic brackets every visit with OnEnter/OnLeave", "OnEnter once, OnLeave once on every returning path",
+              f"a returning path of v_Generic calls {unbalanced[0] if unbalanced else ''}: a visitor that keeps a stack in these hooks (lowering's assignment context) gets out of step after such a node", VISITOR, vg)
     # (c) what default traversal re-initialises is nothing a visitor accumulates
     vd = dv.own_method("v_Default")
-    guard = [n for n in ast.walk(vd) if isinstance(n, ast.If) and "hasattr" in unparse(n.test) and "AcceptVisitor" in unparse(n.test)]
+    guard =[n for n in ast.walk(vd) if isinstance(n, ast.If) and "hasattr" in unparse(n.test) and "AcceptVisitor" in unparse(n.test)]
     col.check(bool(guard) and all(any(isinstance(c, ast.Call) and last_attr(c) == "AcceptVisitor" for s in g.body for c in ast.walk(s)) for g in guard), rule,
               f"{VISITOR}::DefaultVisitor.v_Default only traverses traversable objects", "guarded by hasattr(obj, 'AcceptVisitor')",
               "default traversal calls AcceptVisitor on whatever it is given: an absent child (None: the empty init clause of a for loop) raises AttributeError", VISITOR, vd)
